@@ -150,15 +150,72 @@ func typeNames(n int, r *core.RNG) []string {
 var fieldPool = []string{"X", "Name", "ID", "Value", "Xylophone", "Age", "Items", "Spec", "Y", "Zed", "Kind", "Deep", "W", "Label", "Über"}
 var lowerFieldPool = []string{"x", "name", "mu", "cache", "_"}
 
-func genPackage(r *core.RNG) Input {
+var overNames = []string{"Spawn", "Third", "Remote", "Cookie", "Peer"}
+
+// genOthers: package q of the same module: one or two plain structs with documented ordinary fields
+func genOthers(r *core.RNG) []Type {
+	var out []Type
+	for _, nm := range []string{"Attr", "Version"}[:1+r.Intn(2)] {
+		t := Type{Name: nm, Kind: "struct", Doc: docComment(r, nm)}
+		used := map[string]bool{}
+		for k := 1 + r.Intn(4); k > 0; k-- {
+			fn := core.Pick(r, fieldPool)
+			if r.Chance(15) {
+				fn = core.Pick(r, lowerFieldPool[:4])
+			}
+			if used[fn] {
+				continue
+			}
+			used[fn] = true
+			t.Fields = append(t.Fields, Field{Name: fn, Class: "ordinary", Type: core.Pick(r, ordinaryTypes), Doc: docComment(r, fn)})
+		}
+		if !hasExpose(&t) {
+			t.Fields = append(t.Fields, Field{Name: "Path", Class: "ordinary", Type: "string", Doc: docComment(r, "Path")})
+		}
+		out = append(out, t)
+	}
+	return out
+}
+
+func genPackage(r *core.RNG, heavy bool) Input {
 	var in Input
 	n := 3 + r.Intn(6)
 	names := typeNames(n, r)
+	// every third package or so: one to three defined types over a struct of ANOTHER package - of the standard
+	// library (no module: its comments are indexed all the same) or of package q of the same module
+	var overs []string
+	if r.Chance(35) {
+		pool := stdOvers
+		if heavy {
+			pool = append(append([]string{}, stdOvers...), stdOversThorough...)
+		}
+		for k := 1 + r.Intn(3); k > 0; k-- {
+			if r.Chance(35) {
+				if in.Others == nil {
+					in.Others = genOthers(r)
+				}
+				overs = append(overs, otherPkg+"."+core.Pick(r, in.Others).Name)
+			} else {
+				overs = append(overs, core.Pick(r, pool))
+			}
+		}
+	}
+	for k := range overs {
+		names = append(names, overNames[k])
+	}
+	n = len(names)
 	in.Types = make([]Type, n)
 	// kinds first (embedding needs to know the targets)
 	for i, nm := range names {
 		t := &in.Types[i]
 		t.Name = nm
+		if k := i - (n - len(overs)); k >= 0 {
+			t.Kind, t.Over = "struct", overs[k]
+			if r.Chance(8) {
+				t.Disabled = true
+			}
+			continue
+		}
 		switch k := r.Intn(10); {
 		case k < 6:
 			t.Kind = "struct"
@@ -179,10 +236,11 @@ func genPackage(r *core.RNG) Input {
 			t.Disabled = true
 		}
 	}
+	_ = fillOvers(&in, defaultGoroot())
 	hasEmptyNamed := -1
 	if r.Chance(40) {
 		for i := range in.Types {
-			if in.Types[i].Kind == "struct" && !in.Types[i].Generic {
+			if in.Types[i].Kind == "struct" && !in.Types[i].Generic && in.Types[i].Over == "" {
 				hasEmptyNamed = i // this struct stays without fields
 				break
 			}
@@ -191,7 +249,7 @@ func genPackage(r *core.RNG) Input {
 	// fields, from the last type to the first so that by-value references point to finished types
 	for i := n - 1; i >= 0; i-- {
 		t := &in.Types[i]
-		if t.Kind != "struct" || i == hasEmptyNamed {
+		if t.Kind != "struct" || i == hasEmptyNamed || t.Over != "" {
 			continue
 		}
 		used := map[string]bool{}
@@ -412,6 +470,23 @@ func fixedCases() []Input {
 				{Name: "Ratio", Embedded: true, Doc: doc("key:value")}}},
 			{Name: "Ratio", Kind: "other", Under: "float64", Doc: doc("1:1 means equal parts.", "", "nolint:unused is text here, not a directive")},
 		}},
+		{Types: []Type{ // defined types over structs declared in another package: the standard library (os, go/token), package q
+			// of the same module (`type Third module.Version` in testdata/a/b is of this shape); f's doc lines are those of
+			// the field's declaration.  Seeded change C16-f: no comment index for packages without a module
+			{Name: "Spawn", Kind: "struct", Over: "os.ProcAttr", Doc: doc("Spawn describes how to start the worker.")},
+			{Name: "Pos", Kind: "struct", Over: "token.Position", Doc: doc("Pos is where it happened")},
+			{Name: "Third", Kind: "struct", Over: "q.Attr", Doc: doc("Third", "+gengo:x=1")},
+			{Name: "Job", Kind: "struct", Doc: doc("Job embeds two of them"), Fields: []Field{
+				{Name: "Spawn", Embedded: true, Doc: doc("Spawn of the job:")},
+				{Name: "Third", Embedded: true, Ptr: true},
+				{Name: "ID", Class: "ordinary", Type: "int", Doc: doc("ID of the job")}}},
+		}, Others: []Type{
+			{Name: "Attr", Kind: "struct", Doc: doc("Attr of q"), Fields: []Field{
+				{Name: "Path", Class: "ordinary", Type: "string", Doc: doc("Path is `p` \"p\" 100% @name", "+optional", "second line")},
+				{Name: "Version", Class: "ordinary", Type: "string", Doc: doc("Version Version twice")},
+				{Name: "hidden", Class: "ordinary", Type: "int", Doc: doc("hidden is not listed")},
+				{Name: "Plain", Class: "ordinary", Type: "[]byte"}}},
+		}},
 		{KnownOnly: true, Types: []Type{ // the known finding: promoted field behind a nil embedded pointer
 			{Name: "A", Kind: "struct", Fields: []Field{{Name: "B", Embedded: true, Ptr: true}}},
 			{Name: "B", Kind: "struct", Fields: []Field{{Name: "C", Embedded: true}}},
@@ -434,7 +509,7 @@ func (prop) Generate(r *core.RNG, tier string) []json.RawMessage {
 		add(in)
 	}
 	for i := 0; i < n; i++ {
-		in := genPackage(r.Fork())
+		in := genPackage(r.Fork(), tier == "thorough")
 		add(in)
 		if in.hasClassReceiver() && (tier == "thorough" || i%3 == 0) {
 			in.KnownOnly = true
@@ -500,10 +575,20 @@ func (prop) Shrink(rawIn json.RawMessage) []json.RawMessage {
 		return nil
 	}
 	var out []json.RawMessage
+	// candidates are compared in normal form (the Fields of a type defined over a foreign struct are derived data:
+	// a candidate that only edits them is the input again and must not be offered - Shrink is strictly decreasing)
+	self := func() string {
+		var c Input
+		b, _ := json.Marshal(in)
+		_ = json.Unmarshal(b, &c)
+		sanitize(&c)
+		b, _ = json.Marshal(c)
+		return string(b)
+	}()
 	emit := func(c Input) {
 		sanitize(&c)
 		b, _ := json.Marshal(c)
-		if string(b) != string(rawIn) {
+		if string(b) != self {
 			out = append(out, b)
 		}
 	}
@@ -526,6 +611,30 @@ func (prop) Shrink(rawIn json.RawMessage) []json.RawMessage {
 		}
 		return false
 	}
+	// a single type that refers to no other type of the package (big step first: the rounds are expensive)
+	if len(in.Types) > 1 {
+		for i := range in.Types {
+			alone := true
+			for _, f := range in.Types[i].Fields {
+				if in.Types[i].Over != "" {
+					break
+				}
+				if f.Embedded && f.Foreign == "" {
+					alone = false
+				}
+				for j := range in.Types {
+					if !f.Embedded && strings.Contains(f.Type, in.Types[j].Name) {
+						alone = false
+					}
+				}
+			}
+			if alone {
+				c := clone()
+				c.Types = []Type{c.Types[i]}
+				emit(c)
+			}
+		}
+	}
 	// drop a type nobody refers to
 	for i := range in.Types {
 		c := clone()
@@ -537,6 +646,9 @@ func (prop) Shrink(rawIn json.RawMessage) []json.RawMessage {
 	}
 	// drop a field
 	for i := range in.Types {
+		if in.Types[i].Over != "" {
+			continue
+		}
 		for k := range in.Types[i].Fields {
 			c := clone()
 			c.Types[i].Fields = append(c.Types[i].Fields[:k], c.Types[i].Fields[k+1:]...)
@@ -599,6 +711,9 @@ func (prop) Shrink(rawIn json.RawMessage) []json.RawMessage {
 	for i := range in.Types {
 		i := i
 		shrinkDoc(func(c *Input) *[]DocLine { return &c.Types[i].Doc })
+		if in.Types[i].Over != "" {
+			continue
+		}
 		for k := range in.Types[i].Fields {
 			k := k
 			shrinkDoc(func(c *Input) *[]DocLine { return &c.Types[i].Fields[k].Doc })
@@ -608,6 +723,37 @@ func (prop) Shrink(rawIn json.RawMessage) []json.RawMessage {
 		c := clone()
 		c.Grouped = false
 		emit(c)
+	}
+	// package q: drop a struct no type of p is defined over, drop a field, drop a doc
+	for i := range in.Others {
+		used := false
+		for _, t := range in.Types {
+			if t.Over == otherPkg+"."+in.Others[i].Name {
+				used = true
+			}
+		}
+		if !used {
+			c := clone()
+			c.Others = append(c.Others[:i], c.Others[i+1:]...)
+			emit(c)
+		}
+		for k := range in.Others[i].Fields {
+			if len(in.Others[i].Fields) > 1 {
+				c := clone()
+				c.Others[i].Fields = append(c.Others[i].Fields[:k], c.Others[i].Fields[k+1:]...)
+				emit(c)
+			}
+			if len(in.Others[i].Fields[k].Doc) > 0 {
+				c := clone()
+				c.Others[i].Fields[k].Doc = nil
+				emit(c)
+			}
+		}
+		if len(in.Others[i].Doc) > 0 {
+			c := clone()
+			c.Others[i].Doc = nil
+			emit(c)
+		}
 	}
 	return out
 }
